@@ -10,6 +10,7 @@
 import GoSecs.Lemmas.Responder
 import GoSecs.Gen.Consts
 import GoSecs.Gen.Funcs
+import GoSecs.Gen.Facts
 
 set_option linter.unusedSimpArgs false
 
@@ -57,6 +58,25 @@ theorem consts_gen :
     Gen.hsms_SelectStatusAlreadyActive = (selectStatusAlreadyActive : Int) ∧
     Gen.hsms_DeselectStatusSuccess = (deselectStatusSuccess : Int) ∧
     Gen.hsms_DeselectStatusNotEstablished = (deselectStatusNotEstablished : Int) := by
+  decide
+
+/-- **Where the timers and commits live in the source** (regenerated table): T7 is armed exactly on entering the
+    receive loop and after a successful Deselect; it is cancelled exactly where `CommitSelected` is called (Select
+    responder and the routed status-0 Select.rsp), which are also the two places the linktest is started; T7 expiry
+    is reported only by `runT7`; the link is dropped (`TCPDown`) only by the Select procedure, a peer Separate, the
+    linktest and the receive loop's read error; `SelectLost` only by the Deselect responder; `TCPUp` by the two
+    connect procedures. The model (`step`) places its effects at exactly these points. -/
+theorem control_sites_gen :
+    sitesOf "t.armT7" = ["transport.handleDeselectReq", "transport.recvLoop"] ∧
+    sitesOf "t.cancelT7" = ["transport.handleSelectReq", "transport.dispatchFrame"] ∧
+    sitesOf "rt.CommitSelected" = ["transport.handleSelectReq", "transport.dispatchFrame"] ∧
+    sitesOf "t.startLinktest" = ["transport.handleSelectReq", "transport.dispatchFrame"] ∧
+    sitesOf "t.stopLinktest" = ["transport.handleDeselectReq"] ∧
+    sitesOf "rt.SelectLost" = ["transport.handleDeselectReq"] ∧
+    sitesOf "rt.T7Expired" = ["transport.runT7"] ∧
+    sitesOf "rt.TCPUp" = ["transport.startActive", "transport.acceptLoop"] ∧
+    sitesOf "rt.TCPDown" = ["transport.runSelectProcedure", "transport.handleSeparateReq", "transport.runLinktest",
+      "transport.recvLoop"] := by
   decide
 
 /-- The model's SType predicate is exactly membership in the E37 SType table. -/
@@ -140,12 +160,12 @@ theorem link_end_sends_nothing (c : Cfg) (s : RState) (f : Frame) (h : (dispatch
 
 /-- **Separate.req**: while Selected it ends the connection without any reply; otherwise it is ignored. -/
 theorem separate_semantics (c : Cfg) (s : RState) (f : Frame) (hf : classOf f = .separateReq) (hu : s.st ≠ .notConnected) :
-    (s.st = .selected → dispatch c s f = ({ s with st := .notConnected }, [], .peerSeparate)) ∧
+    (s.st = .selected → dispatch c s f = (down s, [], .peerSeparate)) ∧
     (s.st = .notSelected → dispatch c s f = (s, [], .none)) := by
   rw [dispatch_eq_prescribed c s f hu]
   unfold prescribed
   simp only [hf]
-  constructor <;> intro h <;> simp [selected, h, down]
+  constructor <;> intro h <;> simp [selected, h, down, disconnected]
 
 /-- **Select.req / Deselect.req / Linktest.req** are answered with the prescribed status, echoing session id and
     system bytes (Linktest.rsp carries session id 0xFFFF). -/
@@ -160,7 +180,7 @@ theorem control_requests_answered (c : Cfg) (s : RState) (f : Frame) (hu : s.st 
   rw [dispatch_eq_prescribed c s f hu]
   unfold prescribed
   refine ⟨?_, ?_, ?_⟩ <;> intro hf <;> simp only [hf] <;>
-    cases hst : s.st <;> simp_all [selected, enterSelected, selectRsp, deselectRsp, linktestRsp]
+    cases hst : s.st <;> simp_all [selected, enterSelected, leaveSelected, selectRsp, deselectRsp, linktestRsp]
 
 /-- **Second TCP connection** to a passive endpoint with a live session: refused (closed at once), and the live
     session's state is not touched. -/
@@ -168,12 +188,116 @@ theorem second_connection_refused (s : RState) : acceptConn true s = (true, s, .
 
 /-- The first connection of a generation is adopted and starts in NotSelected. -/
 theorem first_connection_adopted (s : RState) :
-    acceptConn false s = (true, ⟨.notSelected, none, []⟩, .adopt) := rfl
+    acceptConn false s = (true, ⟨.notSelected, none, [], [], true⟩, .adopt) := rfl
+
+/-! ## Establishment, the active Select procedure and the timers (as events) -/
+
+/-- **Connection establishment.** Adopting a TCP connection enters NotSelected with the T7 dwell armed; the active
+    role (and only it) opens with a Select.req carrying the CONFIGURED session id, which becomes the one open
+    control transaction (bounded by T6). -/
+theorem tcp_up_starts_procedure (c : Cfg) (active : Bool) (x : Nat) :
+    step c .idle (.tcpUp active x) =
+      (⟨.notSelected, if active then some x else none, [], [], c.t7⟩,
+       if active then [.ctrl c.sessionID 0 0 1 x] else [], .none) := by
+  simp [step, RState.idle, stSelectReq]
+
+/-- **Outcomes of the active Select procedure.** Whatever ends it — T6 expiry, or any control response / Reject.req
+    carrying the Select.req's system bytes — the transaction is closed and exactly one of three things holds:
+    Select.rsp status 0 ⇒ Selected (committed on the receive step itself), nothing dropped; Select.rsp status 1
+    ("already active") ⇒ no transition at all (Selected iff the peer's own Select.req had already selected us;
+    otherwise the T7 dwell keeps running, see `t7_expiry_drops_not_selected`); anything else — status ≥ 2,
+    Deselect.rsp, Linktest.rsp, Reject.req, T6 — ⇒ the link is dropped (TCPDown) and nothing is sent. -/
+theorem active_select_outcomes (c : Cfg) (s : RState) (x : Nat) (e : Ev) (ho : s.openSel = some x)
+    (hu : s.st ≠ .notConnected) (hc : ClosesSelect x e) :
+    (step c s e).1.openSel = none ∧
+    ((∃ f, e = .frame f ∧ classOf f = .selectRsp ∧ f.b3 = 0 ∧ (step c s e).1.st = .selected ∧ (step c s e).2.2 = .none) ∨
+     (∃ f, e = .frame f ∧ classOf f = .selectRsp ∧ f.b3 = 1 ∧ (step c s e).1.st = s.st ∧
+        (step c s e).1.t7 = s.t7 ∧ (step c s e).2.2 = .none) ∨
+     ((step c s e).1.st = .notConnected ∧ (step c s e).2.2 = .selectFailed ∧ (step c s e).2.1 = [])) :=
+  select_outcomes c s x e ho hu hc
+
+/-- … never both: a procedure that dropped the link did not also leave it Selected. -/
+theorem select_never_both (c : Cfg) (s : RState) (e : Ev) :
+    ¬ ((step c s e).1.st = .selected ∧ (step c s e).2.2 = .selectFailed) := by
+  rintro ⟨h1, h2⟩
+  cases e with
+  | tcpUp a y => simp only [step] at h2; split at h2 <;> simp at h2
+  | t6Select => simp only [step] at h1 h2; split at h2 <;> simp_all [down]
+  | t7 => simp only [step] at h2; (repeat' split at h2) <;> simp at h2
+  | t8 => simp only [step] at h2; split at h2 <;> simp at h2
+  | frame f =>
+    have := link_end_sends_nothing c s f (by simp only [step] at h2; rw [h2]; simp)
+    simp only [step] at h1
+    rw [this.2] at h1; cases h1
+
+/-- **A peer Select.req to an active endpoint** whose own Select.req is still unanswered is served like any other:
+    status 0, Selected at once; our own procedure stays open (it still ends by one of the outcomes above). -/
+theorem peer_select_during_own_select (c : Cfg) (s : RState) (x : Nat) (f : Frame) (ho : s.openSel = some x)
+    (hs : s.st = .notSelected) (hf : classOf f = .selectReq) :
+    step c s (.frame f) = ({ s with st := .selected, t7 := false }, [.ctrl f.session 0 0 2 f.sys], .none) := by
+  have hu : s.st ≠ .notConnected := by rw [hs]; simp
+  simp only [step, dispatch_eq_prescribed c s f hu]
+  unfold prescribed
+  simp [hf, selected, hs, enterSelected, selectRsp]
+
+/-- **T7 is armed exactly while NotSelected** (T7 configured): in every state reachable from the idle endpoint by
+    any sequence of connection, frame and timer events. -/
+theorem t7_armed_iff_not_selected (c : Cfg) (hc : c.t7 = true) (es : List Ev) :
+    (runEv c .idle es).1.t7 = true ↔ (runEv c .idle es).1.st = .notSelected := by
+  have h := runEv_tinv c es .idle (idle_tinv c)
+  exact ⟨h.1, h.2 hc⟩
+
+/-- **T7 never fires while Selected**: in a reachable Selected state the timer is not armed (its expiry event is
+    not enabled); and even a stray expiry delivered to a Selected endpoint changes nothing. -/
+theorem t7_never_fires_while_selected (c : Cfg) (es : List Ev) (hs : (runEv c .idle es).1.st = .selected) :
+    ¬ Enabled (runEv c .idle es).1 .t7 ∧
+    (∀ s : RState, s.st = .selected → (step c s .t7).2.2 = .none ∧ (step c s .t7).1.st = .selected ∧ (step c s .t7).2.1 = []) := by
+  have h := runEv_tinv c es .idle (idle_tinv c)
+  constructor
+  · intro he
+    have := h.1 he
+    rw [hs] at this; cases this
+  · intro s h1
+    simp only [step]
+    cases s.t7 <;> simp [h1]
+
+/-- **T7 expiry in NotSelected drops the link** (no frame is sent). -/
+theorem t7_expiry_drops_not_selected (c : Cfg) (s : RState) (ht : s.t7 = true) (hs : s.st = .notSelected) :
+    step c s .t7 = (down s, [], .t7Expired) := by
+  simp [step, ht, hs]
+
+/-- **Deselect re-arms T7, Select cancels it.** -/
+theorem deselect_rearms_t7 (c : Cfg) (s : RState) (f : Frame) (hs : s.st = .selected) (hf : classOf f = .deselectReq) :
+    (step c s (.frame f)).1.st = .notSelected ∧ (step c s (.frame f)).1.t7 = c.t7 := by
+  have hu : s.st ≠ .notConnected := by rw [hs]; simp
+  simp only [step, dispatch_eq_prescribed c s f hu]
+  unfold prescribed
+  simp [hf, selected, hs, leaveSelected]
+
+theorem select_cancels_t7 (c : Cfg) (s : RState) (f : Frame) (hs : s.st = .notSelected) (hf : classOf f = .selectReq) :
+    (step c s (.frame f)).1.st = .selected ∧ (step c s (.frame f)).1.t7 = false := by
+  have hu : s.st ≠ .notConnected := by rw [hs]; simp
+  simp only [step, dispatch_eq_prescribed c s f hu]
+  unfold prescribed
+  simp [hf, selected, hs, enterSelected]
+
+/-- **T6 / T8 expiry**: an unanswered Select.req and a stalled frame both end the connection, without a reply. -/
+theorem t6_t8_drop (c : Cfg) (s : RState) (hu : s.st ≠ .notConnected) :
+    (s.openSel ≠ none → step c s .t6Select = (down s, [], .selectFailed)) ∧
+    step c s .t8 = (down s, [], .t8Expired) := by
+  constructor
+  · intro h; simp [step, h, hu]
+  · simp [step, hu]
+
+/-- Timers fire only when armed: with no Select.req pending / no dwell armed the events change nothing. -/
+theorem disarmed_timers_are_inert (c : Cfg) (s : RState) :
+    (s.openSel = none → step c s .t6Select = (s, [], .none)) ∧ (s.t7 = false → step c s .t7 = (s, [], .none)) := by
+  constructor <;> intro h <;> simp [step, h]
 
 /-! ## Non-vacuity -/
 
-def cfg0 : Cfg := ⟨true, 0x1234⟩
-def up : RState := ⟨.notSelected, none, []⟩
+def cfg0 : Cfg := ⟨true, 0x1234, true⟩
+def up : RState := ⟨.notSelected, none, [], [], true⟩
 def selReq : Frame := ⟨0xFFFF, 0, 0, 0, 1, 77, 0⟩
 def deselReq : Frame := ⟨0xFFFF, 0, 0, 0, 3, 78, 0⟩
 def junk : Frame := ⟨1, 2, 3, 1, 200, 79, 5⟩
@@ -185,5 +309,8 @@ example : outs cfg0 up [selReq, junk, orphan, selReq, deselReq, selReq] =
      .ctrl 0xFFFF 0 0 4 78, .ctrl 0xFFFF 0 0 2 77] := by decide
 example : ∃ o ∈ (dispatch cfg0 up junk).2.1, o.isReject = true := by decide
 example : classOf ⟨0xFFFF, 0, 0, 0, 9, 5, 0⟩ = .separateReq := by decide
+example : ClosesSelect 7 (.frame ⟨0xFFFF, 0, 3, 0, 2, 7, 0⟩) := by simp [ClosesSelect]; decide
+example : (runEv cfg0 .idle [.tcpUp true 7, .frame selReq, .frame ⟨0x1234, 0, 1, 0, 2, 7, 0⟩, .frame deselReq, .t7]).2.map (·.2) =
+    [.none, .none, .none, .none, .t7Expired] := by decide
 
 end GoSecs.Props.C08
